@@ -5,7 +5,6 @@ import (
 	"reflect"
 	"unsafe"
 
-	"github.com/tetratelabs/wazero/internal/wasmdebug"
 )
 
 // UnwindStack implements wazevo.unwindStack.
@@ -57,9 +56,6 @@ func UnwindStack(sp, _, top uintptr, returnAddresses []uintptr) []uintptr {
 		sizeOfArgRet := binary.LittleEndian.Uint64(stackBuf[i:])
 		i += 8 + sizeOfArgRet
 		returnAddresses = append(returnAddresses, uintptr(retAddr))
-		if len(returnAddresses) == wasmdebug.MaxFrames {
-			break
-		}
 	}
 	return returnAddresses
 }
